@@ -117,6 +117,11 @@ Calls == {
     [call |-> "Optimizer.add_clamp.position", cond |-> Simple("Exists")],
     [call |-> "Optimizer.add_link.leader", cond |-> Simple("Exists")],
     [call |-> "Optimizer.add_link.follower", cond |-> Simple("Exists")],
+    \* (the same three for a model far from the origin and a position that misses its vertex by little - ten thousand merge
+    \*  tolerances, a few millionths of the coordinates: whether a vertex is there is a matter of the merge tolerance)
+    [call |-> "Optimizer.add_clamp.position.far", cond |-> Simple("Exists")],
+    [call |-> "Optimizer.add_link.leader.far", cond |-> Simple("Exists")],
+    [call |-> "Optimizer.add_link.follower.far", cond |-> Simple("Exists")],
     [call |-> "Mesh.grade", cond |-> Simple("Requires")],
     [call |-> "Mesh.backport", cond |-> Simple("Requires")] }
 
